@@ -150,8 +150,10 @@ def make_trace(tid, rng, nops=30, **opt):
     ver = rng.choice([1, 2])
     cs = rng.choice([1 << 20, 1 << 20, 65536, 4096, 63 * 512, 1000 * 512]) if ver == 2 else rng.choice([65536, 4096, 32768, 63 * 512, 24 * 512])
     n = rng.randrange(2, 30 if cs <= 65536 else 10)
-    if opt.get("many"):  # a BAT of several hundred entries
+    if opt.get("many") == "mid":  # a BAT of several hundred entries
         cs, n = rng.choice([4096, 63 * 512, 1024, 2048]), rng.randrange(200, 700)   # small clusters: the BAT itself spans several clusters
+    elif opt.get("many"):  # a BAT of several thousand entries
+        cs, n = rng.choice([4096, 1024, 2048]), rng.choice([rng.randrange(1100, 2500), rng.randrange(4200, 9000), rng.randrange(16500, 20000)])
     parent = rng.random() < 0.3
     tail = rng.choice([0, 0, 512, cs // 1024 * 512, cs - 512])
     size_b = n * cs - tail
@@ -193,6 +195,14 @@ def make_trace(tid, rng, nops=30, **opt):
     return {"tid": tid, "fmt": "hds", "img": timg, "sizeB": size_b, "sector": 512, "geo": b.geo(), "events": rec.events}
 
 
+def trace_for(tid, r, thorough):
+    """The history behind trace `tid` (run and --replay build the same one)."""
+    if tid % 6 == 0:   # a Parallels disk split over several storages (expanding and plain images side by side)
+        import importlib
+        return importlib.import_module("props.c10").make_trace_hdd(tid, r, 40 if thorough else 25)
+    return make_trace(tid, r, 40 if thorough else 25, many=diskprop.many_of(tid))
+
+
 def _attrs(img, prof):
     return {"cluster_size": prof["cluster_size"], "ver": img["ver"], "parent": img["parent"]}
 
@@ -211,15 +221,7 @@ def run(ctx):
                            attrs_of=_attrs, cap=80 if thorough else 48)
     check_via_hdd(ctx, sts, rng, 120 if thorough else 24)
     plain_container_content(ctx, rng)
-    import importlib
-    c10 = importlib.import_module("props.c10")
-
-    def mk(tid, r):
-        if tid % 6 == 0:   # a Parallels disk split over several storages (expanding and plain images side by side)
-            return c10.make_trace_hdd(tid, r, 40 if thorough else 25)
-        return make_trace(tid, r, 40 if thorough else 25, many=("mid" if tid % 8 == 0 else None))
-
-    diskprop.traces(ctx, "hds", mk, 400 if thorough else 72, "TraceDisk", "TraceDisk.cfg",
+    diskprop.traces(ctx, "hds", lambda tid, r: trace_for(tid, r, thorough), 400 if thorough else 72, "TraceDisk", "TraceDisk.cfg",
                     lambda t: {"format": "hds", "ver": t["img"]["ver"] if "img" in t else 0, "parent": t["img"]["parent"] if "img" in t else False, "split": "exts" in t})
 
 
@@ -232,7 +234,7 @@ def replay(ctx, body):
         return not r.violated
     if d.get("kind") in ("trace", "trace-gen"):
         tid = d.get("tid") or d["trace"]["tid"]
-        t = make_trace(tid, random.Random(body["seed"] * 9176 + tid), 40 if body.get("tier") == "thorough" else 25)
+        t = trace_for(tid, random.Random(body["seed"] * 9176 + tid), body.get("tier") == "thorough")
         v, _ = tracecheck.validate("TraceDisk", "TraceDisk.cfg", [t])
         print(v)
         return v[tid][0] == "accept"
